@@ -128,6 +128,17 @@ def run_case(c):
                 rec["oracle"].append("result-mesh-not-axis-removed")
             if r.nvdim != nvdim or r.vdims != f.vdims:
                 rec["oracle"].append("components-changed")
+        if kind == "dir":
+            # equivalent spellings of the same call: falsy cumulative flags of other types, numpy string direction
+            for kw in (dict(cumulative=np.False_), dict(cumulative=0), dict(cumulative=False)):
+                st2, r2 = attempt(lambda: f.integrate(dims[ax], **kw))
+                a2 = None if st2 != "ok" else (r2 if isinstance(r2, np.ndarray) else r2.array)
+                if st2 != "ok" or not np.array_equal(np.asarray(a2), np.asarray(arr)):
+                    rec["oracle"].append("cumulative-flag-spelling")
+            st2, r2 = attempt(lambda: f.integrate(np.str_(dims[ax])))
+            a2 = None if st2 != "ok" else (r2 if isinstance(r2, np.ndarray) else r2.array)
+            if st2 != "ok" or not np.array_equal(np.asarray(a2), np.asarray(arr)):
+                rec["oracle"].append("direction-spelling")
         S = A.sum(axis=ax)
         if kind == "dir":
             want = [x * cell[ax] for x in S.reshape(-1).tolist()]
@@ -145,6 +156,10 @@ def run_case(c):
         obs = dict(array=js(r.array.reshape(-1)))
         if not (r.mesh == f.mesh):
             rec["oracle"].append("cumulative-mesh-changed")
+        for flag in (np.True_, 1, np.bool_(sh[ax] > 0)):
+            st2, r2 = attempt(lambda: f.integrate(dims[ax], cumulative=flag))
+            if st2 != "ok" or not np.array_equal(r2.array, r.array) or not (r2.mesh == f.mesh):
+                rec["oracle"].append("cumulative-flag-spelling")
         # c_j = h*(sum_{i<j} a_i + a_j/2); last + h*a_last/2 = directional integral
         C = np.array(exact(r.array), dtype=object).reshape(*sh, nvdim)
         run = np.zeros_like(A.take(0, axis=ax))
